@@ -319,6 +319,9 @@ func (fv *FV) applyContract(st *State, fc *FuncContract, key string, names []str
 		}
 		sortStrings(names)
 		for _, n := range names {
+			if fc.Trusted && fc.Refines == "" {
+				fv.assumptions["trusted or external callees allocate no object of the tracked type "+n+" (they cannot name it)"] = true
+			}
 			if fc.Allocates[n] {
 				if !fv.fc.Allocates[n] {
 					fv.nTouch++
